@@ -15,6 +15,7 @@ import (
 	"fmt"
 	"net/http"
 	"net/http/httptest"
+	"strings"
 	"sync"
 	"testing"
 	"time"
@@ -39,6 +40,27 @@ func (w *verifStalled) Write(p []byte) (int, error) {
 		return 0, errors.New("client went away")
 	}
 	return len(p), nil
+}
+
+// a client connection that can be read while the handler writes
+type verifLocked struct {
+	mu  sync.Mutex
+	hdr http.Header
+	b   strings.Builder
+}
+
+func (w *verifLocked) Header() http.Header { return w.hdr }
+func (w *verifLocked) WriteHeader(int)     {}
+func (w *verifLocked) Flush()              {}
+func (w *verifLocked) Write(p []byte) (int, error) {
+	w.mu.Lock()
+	defer w.mu.Unlock()
+	return w.b.Write(p)
+}
+func (w *verifLocked) String() string {
+	w.mu.Lock()
+	defer w.mu.Unlock()
+	return w.b.String()
 }
 
 func TestVerifReplayC19(t *testing.T) {
@@ -103,6 +125,60 @@ func TestVerifReplayC19(t *testing.T) {
 		h.Send("message", "after")
 		time.Sleep(100 * time.Millisecond)
 	}
+	// delivery after churn: three clients, the first two leave in connection order, a broadcast must still reach the
+	// third, and the third must be able to leave
+	{
+		h := New()
+		type cl struct {
+			w      *verifLocked
+			cancel context.CancelFunc
+			done   chan struct{}
+		}
+		var cls []cl
+		for i := 0; i < 3; i++ {
+			ctx, cancel := context.WithCancel(context.Background())
+			c := cl{w: &verifLocked{hdr: http.Header{}}, cancel: cancel, done: make(chan struct{})}
+			req := httptest.NewRequest("GET", "/", nil).WithContext(ctx)
+			go func() { h.ServeHTTP(c.w, req); close(c.done) }()
+			for k := 0; k < 300; k++ {
+				h.m.Lock()
+				n := len(h.requests)
+				h.m.Unlock()
+				if n == i+1 {
+					break
+				}
+				time.Sleep(10 * time.Millisecond)
+			}
+			cls = append(cls, c)
+		}
+		fmt.Println("round leave-in-order: three clients, the first two disconnect in connection order, broadcast")
+		for i := 0; i < 2; i++ {
+			cls[i].cancel()
+			select {
+			case <-cls[i].done:
+			case <-time.After(3 * time.Second):
+				fmt.Printf("REPLAY-CONFIRMED client %d cancelled its request but its handler does not return (3 s)\n", i+1)
+				return
+			}
+		}
+		h.Send("message", "after-churn")
+		got := false
+		for k := 0; k < 300 && !got; k++ {
+			got = strings.Contains(cls[2].w.String(), "after-churn")
+			time.Sleep(10 * time.Millisecond)
+		}
+		if !got {
+			fmt.Printf("REPLAY-CONFIRMED three clients connected, the first two left in connection order: the broadcast that follows never reaches the third, still connected client (it received %q)\n", cls[2].w.String())
+			return
+		}
+		cls[2].cancel()
+		select {
+		case <-cls[2].done:
+		case <-time.After(3 * time.Second):
+			fmt.Println("REPLAY-CONFIRMED the last client cancelled its request but its handler does not return (3 s)")
+			return
+		}
+	}
 	// churn: clients connect and disconnect while broadcasts are issued back to back (1 s)
 	{
 		h := New()
@@ -138,7 +214,7 @@ func TestVerifReplayC19(t *testing.T) {
 		close(stop)
 		wg.Wait()
 	}
-	fmt.Println("REPLAY-NOT-REPRODUCED bounded run: 5 rounds of (stalled client, 2 pending broadcasts, client write fails, 1 more broadcast), 5 rounds of (client connected, broadcast, client cancels) and 1 s of client churn under back-to-back broadcasts without a crash")
+	fmt.Println("REPLAY-NOT-REPRODUCED bounded run: 5 rounds of (stalled client, 2 pending broadcasts, client write fails, 1 more broadcast), 5 rounds of (client connected, broadcast, client cancels), delivery to the third of three clients after the first two left in order, and 1 s of client churn under back-to-back broadcasts without a crash")
 }
 `
 
